@@ -16,10 +16,14 @@ def plan(tier):
             "three_or_more_superblocks", "all_zero", "all_one", "equal_rank_run_ones", "equal_rank_run_zeros",
             "k8", "ctor_fill_true", "fill_true_with_padded_last_byte",
             "stale_ones_behind_end_after_truncate_or_pop", "k_larger_than_vector",
+            "rs_clone_queried", "rs_serde_roundtrip_queried", "rs_serde_roundtrip_with_equal_rank_run",
+            "two_consecutive_superblocks_without_ones", "two_consecutive_superblocks_without_zeros",
+            "wm_clone_queried", "wm_serde_roundtrip_queried",
             "more_than_65535_ones_in_a_superblock", "more_than_65535_zeros_in_a_superblock",
             "more_than_128_superblocks_sparse", "more_than_128_superblocks", "big_single_superblock",
             "wm_exhaustive_small", "wm_len_at_superblock_boundary", "wm_padded_levels", "wm_single_symbol_text"],
-        "rule": "rs: one run = one RankSelect object (bits,k), all of rank_1/rank_0(i), i in 0..n+1, and "
+        "rule": "rs: one run = one RankSelect object (bits,k) -- asked directly, through a clone, or after a serde "
+                "round trip through JSON (rotating) --, all of rank_1/rank_0(i), i in 0..n+1, and "
                 "select_1/select_0(j), j in 0..n+1, plus get; every n in 1..130 (k=1) and n = 32k*{1,2,3} +- 9 for "
                 "k in {1,2,3,8} with fills all-0, all-1, single bit at a block/superblock boundary, densities "
                 "1/2, 1/16, 15/16, constant superblocks/bytes; five BitVec constructions (incl. fill-true, truncate and pop leaving stale one bits behind the end). wm: one run = one "
